@@ -97,4 +97,10 @@ META = {
   text="Generated search over request sequences, concurrent mixes, max-read settings, injected failures and head announcement orders; transparency is decided by comparison with an uncached client, reuse bounds and no-cached-errors by the node's request counts, head validity by membership in the announced set.",
   note="Trusted: sim node (request log and counts), the 'nocache' switch of jrpc2.New for the reference client.",
  ),
+ "C19": dict(
+  design_ref="DESIGN.md §5 C19",
+  technique="exhaustive enumeration of the authentication decision table in process (httptest) + route probe of the real binary against the fake Postgres",
+  text="The full product of switches, addresses, cookie states, methods and password guesses (about 6 300 requests) is enumerated against the decision table derived from the statement; the real binary is probed for the wrapping of the five protected routes.",
+  note="Trusted: net/http/httptest, the decision table in the test. The generated password is read from the handler's log output.",
+ ),
 }
